@@ -293,6 +293,19 @@ def pipexOp : List String → String
     | _, _ => "bad-args"
   | _ => "bad-args"
 
+/-- `rdopen <readers> <nfiles>`: how many of `nfiles` files are read at the same time under `--readers readers`
+    (`configure` gives `R`; theorems `pipeline_reader_bound`, `pipeline_readers_saturate`), and the lines read
+    (one per file). -/
+def rdopenOp : List String → String
+  | [r, n] =>
+    match r.toInt?, n.toNat? with
+    | some r, some n =>
+      match configure ⟨1, 1, 1, r⟩ .files with
+      | .error u => s!"usage {u.code} {Hex.enc (ascii u.msg)}"
+      | .ok c => s!"ok open={min c.R n} read={n}"
+    | _, _ => "bad-args"
+  | _ => "bad-args"
+
 /-- `pipe <inputs hexlist> <mode> <batch> <workers> <readers> <buffer> <flushms> <script> <procs> <delay>
     [<matcher> <ignores> <extract>]`: the reference outcome – sequential evaluation in which every line is
     classified with its own source name and 1-based line number (independent of batch/worker/reader/buffer
@@ -321,6 +334,7 @@ def handle : List String → String
   | "flags" :: rest => flagsOp rest
   | "filtern" :: rest => filterOp rest
   | "pipex" :: rest => pipexOp rest
+  | "rdopen" :: rest => rdopenOp rest
   | ["trim", h] =>
     -- `strings.TrimSpace` byte for byte, `Truthy` as Go computes it, and the `truthy` of the shared expression model
     match Hex.dec h with
